@@ -73,6 +73,7 @@ type frame struct {
 }
 
 var traceFn = os.Getenv("GOSYM_TRACE")
+var progress = os.Getenv("GOSYM_PROGRESS") != ""
 
 // targetPanic is a Go panic of the interpreted program.
 type targetPanic struct{ v Value }
@@ -218,6 +219,9 @@ func (fr *frame) visit(instr ssa.Instruction) continuation {
 		e.abort("budget", "step budget %d exhausted at %s", e.M.Cfg.MaxSteps, e.where())
 	}
 	fr.curInstr = instr
+	if progress && e.steps%200000 == 0 {
+		fmt.Fprintf(os.Stderr, "PROGRESS steps=%d decisions=%d %s\n", e.steps, e.res.Decisions, e.stack())
+	}
 	if traceFn != "" && strings.Contains(fr.fn.String(), traceFn) {
 		defer func() {
 			if v, ok := instr.(ssa.Value); ok {
